@@ -1,9 +1,9 @@
 (** C15 — the guard-drop protocol: Shutdown travels behind every line accepted before it, the worker
     flushes, releases the writer, meets the guard on the rendezvous channel.  Safety for every schedule
-    (timeouts included); progress under NoTimeout and, for the code as it is (F11), no failing flush
-    in the batch that consumed Shutdown. *)
+    (timeouts included); the statement about a returned drop under NoTimeout. *)
 From Coq Require Import List NArith Arith Bool Lia.
-From TV Require Import Appender.NonBlockingModel Appender.NonBlockingSched Appender.NonBlockingProofs.
+From TV Require Import Appender.NonBlockingModel Appender.NonBlockingSched Appender.NonBlockingStep
+  Appender.NonBlockingProofs.
 Import ListNotations.
 Local Open Scope nat_scope.
 
@@ -21,20 +21,22 @@ Proof. induction a as [|[l|] a IH]; simpl; intros; auto; try congruence. rewrite
 
 Definition normal_pc (p : wpc) : Prop :=
   match p with WRecv | WWrite _ | WTry | WFlush StEmpty => True | _ => False end.
-Definition past_shutdown (p : wpc) : Prop :=
-  match p with WFlush StShutdown | WRelease | WRendezvous | WExit => True | _ => False end.
-Definition guard_done (g : gstate) : Prop := match g with GDone _ => True | _ => False end.
+Definition early (g : gstate) : Prop := g = GHeld \/ g = GSending.
+Definition late (g : gstate) : Prop := g = GWaitRdv \/ g = GJoin \/ g = GDone true.
 Definition done_pc (p : wpc) : Prop := match p with WRendezvous | WExit => True | _ => False end.
 
+Definition nseen (s : state) : nat := length (attempts s) + length (inflight (pc s)).
+
 Record GInv (c : config) (s : state) : Prop := {
-  gi_early : guard s = GHeld \/ guard s = GSending -> mark s = None /\ normal_pc (pc s);
+  gi_early : early (guard s) -> mark s = None /\ normal_pc (pc s);
   gi_nomark : mark s = None -> nsd (q s) = 0;
-  gi_alive : ~ guard_done (guard s) -> pc s <> WFlush StDisconnected /\ (past_shutdown (pc s) -> nsd (q s) = 0 /\ mark s <> None);
+  gi_late : late (guard s) -> mark s <> None;
+  gi_sd : nsd (q s) <= 1;
+  gi_term : ~ normal_pc (pc s) -> nsd (q s) = 0;
   gi_mark : forall n, mark s = Some n ->
-      nsd (q s) <= 1 /\
-      (nsd (q s) = 1 -> length (attempts s) + length (inflight (pc s)) + length (lines_before_sd (q s)) = n) /\
-      (nsd (q s) = 0 -> n <= length (attempts s) + length (inflight (pc s)));
-  gi_join : guard s = GJoin \/ guard s = GDone true -> pc s = WExit /\ nsd (q s) = 0 /\ mark s <> None;
+      (nsd (q s) = 1 -> nseen s + length (lines_before_sd (q s)) = n) /\
+      (nsd (q s) = 0 -> n <= nseen s);
+  gi_join : guard s = GJoin \/ guard s = GDone true -> pc s = WExit;
   gi_rel : pc s = WRelease -> exists lg b, log s = lg ++ [EvFlush b] /\ (var c = FlushErrLosesState -> b = true);
   gi_done : done_pc (pc s) -> exists lg b, log s = lg ++ [EvFlush b; EvDropWriter] /\ (var c = FlushErrLosesState -> b = true);
   gi_walive : ~ done_pc (pc s) -> writer_alive s = true
@@ -42,47 +44,239 @@ Record GInv (c : config) (s : state) : Prop := {
 
 Lemma ginv_init : forall c, GInv c (init c).
 Proof.
-  intros c. constructor; simpl; auto; try (intros; discriminate); try (intros [|]; discriminate);
-    try (intros []; fail).
-  all: try (intros _; split; [intro; discriminate | intros []]).
-  all: try (intros []; discriminate).
+  intros c. constructor; simpl; auto; unfold early, late; simpl; intros;
+    try discriminate; try tauto; try lia.
+  - destruct H as [H|[H|H]]; discriminate.
+  - destruct H; discriminate.
 Qed.
 
-Lemma writer_alive_snoc : forall s e, writer_alive (call s e) = writer_alive s && match e with EvDropWriter => false | _ => true end.
-Proof. intros. unfold writer_alive, call; simpl. rewrite existsb_app. simpl. rewrite orb_false_r, negb_orb. destruct e; auto. Qed.
+Lemma senders_pos_early : forall s, early (guard s) -> senders s <> 0.
+Proof. intros s [E|E]; unfold senders; rewrite E; lia. Qed.
 
-Lemma lbs_nosd : forall a, nsd a = 0 -> lines_before_sd a = qlines a.
-Proof. intros. rewrite <- (app_nil_r a) at 1. rewrite lbs_app_nosd; auto. simpl. apply app_nil_r. Qed.
+Lemma writer_alive_app : forall s e,
+  existsb (fun e => match e with EvDropWriter => true | _ => false end) (log s ++ [e]) =
+  existsb (fun e => match e with EvDropWriter => true | _ => false end) (log s)
+  || match e with EvDropWriter => true | _ => false end.
+Proof. intros. rewrite existsb_app. simpl. rewrite orb_false_r. reflexivity. Qed.
 
-Ltac norm_hyps :=
-  repeat match goal with
-         | E : pc _ = _ |- _ => rewrite E in *
-         | E : q _ = _ |- _ => rewrite E in *
-         end.
+Ltac early_absurd :=
+  match goal with
+  | H : early ?g, E : ?g = _ |- _ => rewrite E in H; destruct H; discriminate
+  | H : late ?g, E : ?g = _ |- _ => rewrite E in H; destruct H as [H|[H|H]]; discriminate
+  end.
 
-Ltac prep s :=
-  repeat match goal with
-         | E : (senders s =? 0) = true |- _ =>
-             apply Nat.eqb_eq in E; unfold senders in E; destruct (guard s) eqn:?; simpl in E; try lia; clear E
-         | E : (senders s =? 0) = false |- _ => clear E
-         end.
-
-Ltac inj_some := repeat match goal with H : Some _ = Some _ |- _ => inversion H; subst; clear H end.
-
-Ltac gsolve s :=
-  simpl in *; intros;
-  try match goal with IM : forall n, mark s = Some n -> _ |- _ =>
-        destruct (mark s) as [mk|] eqn:MK; [ specialize (IM mk eq_refl) | clear IM ] end;
-  inj_some; unfold writer_alive in *; simpl in *; rewrite ?existsb_app in *; simpl in *; rewrite ?orb_false_r in *;
-  try solve [ intuition (try discriminate; try congruence; try lia; eauto)
-            | exfalso; intuition (try discriminate; try congruence; try lia) ].
-
-Lemma ginv_step : forall c faults s l s', Conserv s -> GInv c s -> step c faults s l = Some s' -> GInv c s'.
+Lemma ginv_step : forall c faults s l s', Conserv s -> GInv c s -> Step c faults s l s' -> GInv c s'.
 Proof.
   intros c faults s l s' CV I H.
-  destruct I as [Iearly Inomark Ialive Imark Ijoin Irel Idone Iwalive].
-  inv_step H; prep s; norm_hyps; constructor; simpl in *; unfold attempts in *; simpl in *;
-    rewrite ?attempts_of_app, ?app_length, ?nsd_app in *; simpl in *; gsolve s.
-  all: let n := numgoals in idtac "REMAINING" n.
-  3: { Show. }
-Abort.
+  destruct I as [Iearly Inomark Ilate Isd Iterm Imark Ijoin Irel Idone Iwalive].
+  unfold nseen, attempts in *.
+  destruct H.
+  - (* recv line *)
+    rewrite H, H0 in *. simpl in *.
+    constructor; unfold nseen, attempts; simpl; auto; try tauto; try (intros; discriminate).
+    + intros n M. specialize (Imark n M). simpl in Imark. lia.
+    + intros _. apply Iwalive. tauto.
+  - (* recv shutdown *)
+    rewrite H, H0 in *. simpl in *.
+    constructor; unfold nseen, attempts; simpl; auto; try tauto; try lia; try (intros; discriminate).
+    + intros E. destruct (Iearly E) as [M _]. apply Inomark in M. discriminate.
+    + intros n M. specialize (Imark n M). simpl in Imark. lia.
+    + intros _. apply Iwalive. tauto.
+  - (* recv disconnected *)
+    rewrite H, H0 in *. simpl in *.
+    constructor; unfold nseen, attempts; simpl; auto; try tauto; try (intros; discriminate).
+    + intros E. exfalso. eapply senders_pos_early; eauto.
+    + intros n M. specialize (Imark n M). simpl in Imark. lia.
+    + intros _. apply Iwalive. tauto.
+  - (* write *)
+    rewrite H in *. simpl in *.
+    constructor; unfold nseen, attempts; simpl; rewrite ?attempts_of_app, ?app_length; simpl; auto; try tauto.
+    + intros E. destruct (Iearly E). split; auto. destruct (faults (ncalls s)); exact I.
+    + intros N. exfalso. apply N. destruct (faults (ncalls s)); exact I.
+    + intros n M. specialize (Imark n M). simpl in Imark. destruct (faults (ncalls s)); simpl; lia.
+    + destruct (faults (ncalls s)); intros; discriminate.
+    + destruct (faults (ncalls s)); simpl; tauto.
+    + intros _. unfold writer_alive. simpl. rewrite writer_alive_app, orb_false_r. apply Iwalive. tauto.
+  - (* try line *)
+    rewrite H, H0 in *. simpl in *.
+    constructor; unfold nseen, attempts; simpl; auto; try tauto; try (intros; discriminate).
+    + intros n M. specialize (Imark n M). simpl in Imark. lia.
+    + intros _. apply Iwalive. tauto.
+  - (* try shutdown *)
+    rewrite H, H0 in *. simpl in *.
+    constructor; unfold nseen, attempts; simpl; auto; try tauto; try lia; try (intros; discriminate).
+    + intros E. destruct (Iearly E) as [M _]. apply Inomark in M. discriminate.
+    + intros n M. specialize (Imark n M). simpl in Imark. lia.
+    + intros _. apply Iwalive. tauto.
+  - (* try none *)
+    rewrite H, H0 in *. simpl in *.
+    constructor; unfold nseen, attempts; simpl; auto; try tauto; try (intros; discriminate).
+    + intros E. destruct (Iearly E). split; auto.
+      destruct (Nat.eqb_spec (senders s) 0) as [Z|Z]; [exfalso; eapply senders_pos_early; eauto | exact I].
+    + intros n M. specialize (Imark n M). simpl in Imark. lia.
+    + intros _. apply Iwalive. tauto.
+  - (* flush *)
+    rewrite H in *. simpl in *.
+    assert (NX: forall b, flush_next c st b <> WRendezvous /\ flush_next c st b <> WExit).
+    { intros b. unfold flush_next. destruct (terminal st), b, (var c); split; discriminate. }
+    constructor; unfold nseen, attempts; simpl; rewrite ?attempts_of_app, ?app_length; simpl; auto; try tauto.
+    + intros E. destruct (Iearly E) as [M N]. split; auto. destruct st; simpl in N; try tauto.
+      unfold flush_next. simpl. exact I.
+    + intros N. apply Iterm. intros NP. apply N. destruct st; simpl in NP; try tauto. unfold flush_next. simpl. exact I.
+    + intros n M. specialize (Imark n M). simpl in Imark.
+      assert (length (inflight (flush_next c st (faults (ncalls s)))) = 0).
+      { unfold flush_next. destruct (terminal st), (faults (ncalls s)), (var c); reflexivity. }
+      lia.
+    + intros J. apply Ijoin in J. discriminate.
+    + intros R. exists (log s), (negb (faults (ncalls s))). split; auto.
+      intros V. unfold flush_next in R. rewrite V in R. destruct (terminal st), (faults (ncalls s)); simpl; auto; discriminate.
+    + intros D. exfalso. destruct (NX (faults (ncalls s))) as [A B].
+      destruct (flush_next c st (faults (ncalls s))); simpl in D; try tauto; congruence.
+    + intros _. unfold writer_alive. simpl. rewrite writer_alive_app, orb_false_r. apply Iwalive. tauto.
+  - (* release *)
+    rewrite H in *. simpl in *.
+    constructor; unfold nseen, attempts; simpl; rewrite ?attempts_of_app, ?app_length; simpl; auto; try tauto.
+    + intros E. destruct (Iearly E) as [_ N]. destruct N.
+    + intros n M. specialize (Imark n M). simpl in Imark. lia.
+    + intros J. apply Ijoin in J. discriminate.
+    + intros; discriminate.
+    + intros _. destruct (Irel eq_refl) as (lg & b & L & V). exists lg, b. split; auto.
+      rewrite L, <- app_assoc. reflexivity.
+  - (* exit *)
+    rewrite H, H0 in *. simpl in *.
+    constructor; unfold nseen, attempts; simpl; auto; try tauto; try (intros; discriminate).
+    + intros E. destruct E; discriminate.
+    + intros n M. specialize (Imark n M). simpl in Imark. lia.
+    + intros _. apply Idone. exact I.
+  - (* accept *)
+    unfold prod_advance. simpl in *.
+    constructor; unfold nseen, attempts; simpl; rewrite ?nsd_app; simpl; rewrite ?Nat.add_0_r; auto.
+    intros n M. specialize (Imark n M). split; intros N.
+    + rewrite lbs_app_sd by lia. tauto.
+    + tauto.
+  - (* drop *)
+    unfold prod_advance. simpl in *. constructor; auto.
+  - (* refuse *)
+    unfold prod_advance. simpl in *. constructor; auto.
+  - (* close *)
+    simpl in *. constructor; auto.
+  - (* guard begin *)
+    rewrite H in *. simpl in *.
+    constructor; unfold nseen, attempts; simpl; auto.
+    + intros _. apply Iearly. left; reflexivity.
+    + intros L. destruct L as [L|[L|L]]; discriminate.
+    + intros [J|J]; discriminate.
+  - (* guard send, receiver gone *)
+    rewrite H in *. simpl in *.
+    constructor; unfold nseen, attempts; simpl; auto.
+    + intros [E|E]; discriminate.
+    + intros L. destruct L as [L|[L|L]]; discriminate.
+    + intros [J|J]; discriminate.
+  - (* guard send *)
+    rewrite H in *. simpl in *.
+    destruct (Iearly (or_intror eq_refl)) as [M NP]. pose proof (Inomark M) as Z.
+    constructor; unfold nseen, attempts; simpl; rewrite ?nsd_app; simpl; auto; try lia.
+    + intros [E|E]; discriminate.
+    + intros; discriminate.
+    + intros; discriminate.
+    + intros N. exfalso. tauto.
+    + intros n Mn. inversion Mn; subst; clear Mn. split; [intros _|intros; lia].
+      rewrite lbs_app_nosd by auto. simpl. rewrite app_nil_r.
+      unfold Conserv, pending, attempts in CV. rewrite CV, !app_length, map_length. lia.
+    + intros [J|J]; discriminate.
+  - (* timeout 100 *)
+    rewrite H in *. simpl in *.
+    constructor; unfold nseen, attempts; simpl; auto.
+    + intros [E|E]; discriminate.
+    + intros L. destruct L as [L|[L|L]]; discriminate.
+    + intros [J|J]; discriminate.
+  - (* rendezvous *)
+    rewrite H, H0 in *. simpl in *.
+    constructor; unfold nseen, attempts; simpl; auto; try tauto; try (intros; discriminate).
+    + intros [E|E]; discriminate.
+    + intros _. apply Ilate. left; reflexivity.
+    + intros n M. specialize (Imark n M). simpl in Imark. lia.
+    + intros _. apply Idone. exact I.
+  - (* timeout 1000 *)
+    rewrite H in *. simpl in *.
+    constructor; unfold nseen, attempts; simpl; auto.
+    + intros [E|E]; discriminate.
+    + intros L. destruct L as [L|[L|L]]; discriminate.
+    + intros [J|J]; discriminate.
+  - (* join *)
+    rewrite H, H0 in *. simpl in *.
+    constructor; unfold nseen, attempts; simpl; auto; try tauto; try (intros; discriminate).
+    + intros [E|E]; discriminate.
+    + intros _. apply Ilate. right; left; reflexivity.
+Qed.
+
+Theorem guard_invariant : forall c faults s, reachable c faults s -> GInv c s.
+Proof.
+  intros c faults s R.
+  assert (K: Conserv s /\ GInv c s).
+  { induction R.
+    - split; [reflexivity | apply ginv_init].
+    - destruct IHR as [CV GI]. split.
+      + eapply conserv_step; eauto.
+      + eapply ginv_step; eauto. apply step_Step; eauto. }
+  tauto.
+Qed.
+
+(** Without a timeout the drop can only end through the join. *)
+Lemma no_timeout_clean : forall c faults s, reachP c faults NoTimeout s -> guard s <> GDone false.
+Proof.
+  intros c faults s R. induction R.
+  - simpl. discriminate.
+  - pose proof (guard_invariant _ _ _ (reachP_reachable _ _ _ _ R)) as GI.
+    apply step_Step in H0. destruct H0; simpl; auto; try discriminate;
+      try (unfold NoTimeout in H; simpl in H; discriminate).
+    (* LGSend with the receiver gone: impossible while the guard has not sent Shutdown *)
+    exfalso. destruct (gi_early _ _ GI (or_intror H0)) as [_ NP].
+    unfold recv_alive in H1. destruct (pc s); simpl in *; try discriminate; tauto.
+Qed.
+
+Lemma firstn_app_le : forall A (a b : list A) n, n <= length a -> firstn n (a ++ b) = firstn n a.
+Proof. intros. rewrite firstn_app. replace (n - length a) with 0 by lia. simpl. apply app_nil_r. Qed.
+
+(** The state in which a guard drop has returned after the join. *)
+Definition DropReturned (c : config) (s : state) : Prop :=
+  pc s = WExit /\
+  writer_alive s = false /\
+  exists n lg fb,
+    mark s = Some n /\
+    n <= length (attempts s) /\
+    firstn n (accepted s) = firstn n (map fst (attempts s)) /\
+    log s = lg ++ [EvFlush fb; EvDropWriter] /\
+    attempts_of lg = attempts s /\
+    (var c = FlushErrLosesState -> fb = true).
+
+Lemma attempts_flush_drop : forall lg fb, attempts_of (lg ++ [EvFlush fb; EvDropWriter]) = attempts_of lg.
+Proof. intros. rewrite attempts_of_app. simpl. apply app_nil_r. Qed.
+
+Theorem clean_drop_returned : forall c faults s, reachable c faults s -> guard s = GDone true -> DropReturned c s.
+Proof.
+  intros c faults s R G.
+  pose proof (guard_invariant _ _ _ R) as GI. pose proof (conservation _ _ _ R) as CV.
+  assert (P: pc s = WExit) by (apply (gi_join _ _ GI); auto).
+  assert (Z: nsd (q s) = 0) by (apply (gi_term _ _ GI); rewrite P; simpl; tauto).
+  destruct (gi_done _ _ GI) as (lg & fb & L & V); [rewrite P; exact I|].
+  destruct (mark s) as [n|] eqn:M; [|exfalso; apply (gi_late _ _ GI); [right; right; auto | auto]].
+  destruct (gi_mark _ _ GI n M) as [_ LE]. specialize (LE Z). unfold nseen in LE. rewrite P in LE. simpl in LE.
+  split; auto. split.
+  - unfold writer_alive. rewrite L, existsb_app. simpl. rewrite orb_true_r. reflexivity.
+  - exists n, lg, fb. repeat split; auto; try lia.
+    + unfold Conserv in CV. rewrite CV. rewrite firstn_app_le; auto. rewrite map_length. lia.
+    + unfold attempts. rewrite L. symmetry. apply attempts_flush_drop.
+Qed.
+
+(** C15_guard_drop: under NoTimeout, once the drop has returned it returned through the join, every
+    line accepted before Shutdown was queued (a fortiori before the drop began) has been handed to
+    write_all in acceptance order, the log ends with a flush and the release of the writer. *)
+Theorem guard_drop_no_timeout : forall c faults s b,
+  reachP c faults NoTimeout s -> guard s = GDone b -> b = true /\ DropReturned c s.
+Proof.
+  intros c faults s b R G.
+  assert (b = true).
+  { destruct b; auto. exfalso. eapply no_timeout_clean; eauto. }
+  subst. split; auto. eapply clean_drop_returned; eauto. eapply reachP_reachable; eauto.
+Qed.
